@@ -35,6 +35,7 @@ def parse_model(line):
 
 
 ERR_PATTERNS = [
+    (re.compile(r"null reference"), lambda m: "null"),
     (re.compile(r"division by zero"), lambda m: "divzero"),
     (re.compile(r"modulo by zero"), lambda m: "modzero"),
     (re.compile(r"index (-?\d+) out of bounds for length (\d+)"), lambda m: "index:%s:%s" % (m.group(1), m.group(2))),
@@ -145,8 +146,10 @@ def classify(model, impl):
 
 def differential(chk, fns_list, tag, kind="hooked", fuel=FUEL):
     """run every program on both sides; report disagreements; returns (records, counts)"""
-    sxs = [lg.prog_sx(f) for f in fns_list]
-    srcs = [lg.prog_src(f) for f in fns_list]
+    def split(p):
+        return (p, None) if isinstance(p, list) else p
+    sxs = [lg.prog_sx(*split(f)) for f in fns_list]
+    srcs = [lg.prog_src(*split(f)) for f in fns_list]
     models = run_model(sxs, fuel)
     impls = run_impl(srcs, kind)
     counts = {}
